@@ -7,3 +7,5 @@ git -C /repo apply "$patch" || exit 2
 cd /verif && VERIF_NOCACHE=1 ./check $prop $tier 2>&1 | tail -${TAILN:-6} | cut -c1-600
 echo "exit=${PIPESTATUS[0]}"
 git -C /repo checkout -- .
+# the evidence file must describe the clean tree again
+cd /verif && VERIF_NOCACHE=1 ./check $prop quick >/dev/null 2>&1; echo "clean-tree rerun exit=$?"
